@@ -10,6 +10,7 @@ import (
 	"github.com/enbility/spine-go/model"
 
 	"verifharness/regs"
+	"verifharness/scen"
 	"verifharness/sched"
 	"verifharness/world"
 )
@@ -163,3 +164,6 @@ func TestBindStress(t *testing.T) {
 		}
 	})
 }
+
+// see scen.RegistryMix
+func TestRegistryMixStress(t *testing.T) { scen.RegistryMix(t, "C09") }
